@@ -45,19 +45,32 @@ struct World {
     nrecv: u64,
 }
 
-const DENOMS: [&str; NA] = ["uluna", "uusd", "uwhale", "uatom"];
+/// names of the four assets when they are native coins, per world (`dn=<k>` on the init line; seed C14-N: a
+/// handler that treats token-factory denoms specially was invisible with plain lower-case denoms). The model
+/// never looks at names: every set must behave like set 0.
+const DENOM_SETS: [[&str; NA]; 5] = [
+    ["uluna", "uusd", "uwhale", "uatom"],
+    ["factory/migaloo1creator/uluna", "uusd", "ibc/27394FB092D2ECCD56123C74F36E4C1F926001CEADA9CA97EA622B25F41E5EB2", "uatom"],
+    ["uluna", "factory/migaloo1creator/ulp", "uwhale", "factory/migaloo1creator/Ulp"],
+    ["uusdc", "uusd", "factory/migaloo1creator/uusd", "uusdcx"],
+    ["ibc/B3504E092456BA618CC28AC671A71FB08C6CA0FD0BE7C8A5B5A3E2DD933CC9E4", "factory/migaloo1other/uwhale", "uwhale", "factory/migaloo1creator/uwhale"],
+];
+thread_local! { static DN: std::cell::Cell<usize> = const { std::cell::Cell::new(0) }; }
+fn dnm(a: usize) -> &'static str {
+    DENOM_SETS[DN.with(|d| d.get()) % DENOM_SETS.len()][a]
+}
 
 impl World {
     fn info(&self, a: usize) -> AssetInfo {
         if self.kinds[a] {
-            AssetInfo::NativeToken { denom: DENOMS[a].into() }
+            AssetInfo::NativeToken { denom: dnm(a).into() }
         } else {
             AssetInfo::Token { contract_addr: self.tokens[a].as_ref().unwrap().to_string() }
         }
     }
     fn bal(&self, who: &Addr, a: usize) -> u128 {
         if self.kinds[a] {
-            self.app.wrap().query_balance(who, DENOMS[a]).unwrap().amount.u128()
+            self.app.wrap().query_balance(who, dnm(a)).unwrap().amount.u128()
         } else {
             let b: cw20::BalanceResponse = self
                 .app
@@ -73,7 +86,7 @@ impl World {
         }
         if self.kinds[a] {
             self.app
-                .sudo(SudoMsg::Bank(BankSudo::Mint { to_address: to.to_string(), amount: coins(amt, DENOMS[a]) }))
+                .sudo(SudoMsg::Bank(BankSudo::Mint { to_address: to.to_string(), amount: coins(amt, dnm(a)) }))
                 .unwrap();
         } else {
             let t = self.tokens[a].clone().unwrap();
@@ -88,7 +101,7 @@ impl World {
         let app = &mut self.app;
         guarded(|| {
             if kinds[a] {
-                app.send_tokens(from.clone(), to.clone(), &coins(amt, DENOMS[a]))
+                app.send_tokens(from.clone(), to.clone(), &coins(amt, dnm(a)))
             } else {
                 app.execute_contract(
                     from.clone(),
@@ -152,7 +165,7 @@ fn build(kinds: Vec<bool>, specs: &[PairSpec]) -> Result<World, String> {
     let admin = Addr::unchecked("admin");
     let minter = Addr::unchecked("minter");
     let mut app: App = AppBuilder::new().with_bank(BankKeeper::new()).build(|router, _api, storage| {
-        let c: Vec<Coin> = DENOMS.iter().map(|d| Coin { denom: d.to_string(), amount: Uint128::new(10) }).collect();
+        let c: Vec<Coin> = (0..NA).map(dnm).map(|d| Coin { denom: d.to_string(), amount: Uint128::new(10) }).collect();
         let mut c = c;
         c.sort_by(|x, y| x.denom.cmp(&y.denom));
         router.bank.init_balance(storage, &Addr::unchecked("admin"), c).unwrap();
@@ -195,8 +208,8 @@ fn build(kinds: Vec<bool>, specs: &[PairSpec]) -> Result<World, String> {
             app.execute_contract(
                 admin.clone(),
                 fac.clone(),
-                &f::ExecuteMsg::AddNativeTokenDecimals { denom: DENOMS[a].into(), decimals: 6 },
-                &coins(1, DENOMS[a]),
+                &f::ExecuteMsg::AddNativeTokenDecimals { denom: dnm(a).into(), decimals: 6 },
+                &coins(1, dnm(a)),
             )
             .map_err(es)?;
         } else {
@@ -246,7 +259,7 @@ fn build(kinds: Vec<bool>, specs: &[PairSpec]) -> Result<World, String> {
         for k in 0..2 {
             w.mint(&lp, s.a[k], s.bal[k]);
             if w.kinds[s.a[k]] {
-                funds.push(Coin { denom: DENOMS[s.a[k]].into(), amount: s.bal[k].into() });
+                funds.push(Coin { denom: dnm(s.a[k]).into(), amount: s.bal[k].into() });
             } else {
                 let t = w.tokens[s.a[k]].clone().unwrap();
                 w.app
@@ -337,12 +350,18 @@ impl Quotes {
     fn do_init(&mut self, ws: &[&str]) -> String {
         let mut kinds = vec![true, true, false, false];
         let mut specs: Vec<(usize, PairSpec)> = vec![];
+        DN.with(|c| c.set(0));
         for t in &ws[2..] {
             let (k, v) = match t.split_once('=') {
                 Some(kv) => kv,
                 None => return "bad-op".into(),
             };
-            if k == "kinds" {
+            if k == "dn" {
+                match v.parse::<usize>() {
+                    Ok(d) => DN.with(|c| c.set(d)),
+                    Err(_) => return "bad-op".into(),
+                }
+            } else if k == "kinds" {
                 let ks: Vec<&str> = v.split(',').collect();
                 if ks.len() != NA || ks.iter().any(|x| *x != "n" && *x != "c") {
                     return "bad-op".into();
@@ -458,7 +477,7 @@ impl Quotes {
                             max_spread: dec(ms),
                             to: Some(to.to_string()),
                         },
-                        &coins(amt, DENOMS[oa]),
+                        &coins(amt, dnm(oa)),
                     )
                 } else {
                     app.execute_contract(
@@ -607,7 +626,7 @@ impl Quotes {
                         trader.clone(),
                         router.clone(),
                         &r::ExecuteMsg::ExecuteSwapOperations { operations: ops.clone(), minimum_receive: None, to: Some(to.to_string()), max_spread: dec(ms) },
-                        &coins(amt, DENOMS[first]),
+                        &coins(amt, dnm(first)),
                     )
                 } else {
                     app.execute_contract(
@@ -739,7 +758,7 @@ impl Quotes {
             for k in 0..2 {
                 w.mint(&lp, a[k], bal[k]);
                 if w.kinds[a[k]] {
-                    funds.push(Coin { denom: DENOMS[a[k]].into(), amount: bal[k].into() });
+                    funds.push(Coin { denom: dnm(a[k]).into(), amount: bal[k].into() });
                 } else {
                     let t = w.tokens[a[k]].clone().unwrap();
                     w.app
@@ -782,6 +801,9 @@ impl Quotes {
         // pair graph: a triangle 0-1-2 plus the spoke 2-3 (default), or the square 0-1-2-3
         let topo: [(usize, usize); 4] = if rng.chance(3, 4) { [(0, 1), (1, 2), (2, 3), (2, 0)] } else { [(0, 1), (1, 2), (2, 3), (3, 0)] };
         let mut s = format!("init quotes kinds={kinds}");
+        if rng.chance(1, 2) {
+            s += &format!(" dn={}", 1 + rng.below(DENOM_SETS.len() as u64 - 1));
+        }
         let scale = rng.range(14, 100) as u32;
         for (i, (x, y)) in topo.iter().enumerate() {
             let (x, y) = if rng.chance(1, 2) { (*x, *y) } else { (*y, *x) };
